@@ -379,3 +379,58 @@ Theorem C15_heap_graft_shares :
             (add_up_end (UNode n c sl))).
 Proof. exact graft_h_shares. Qed.
 Print Assumptions C15_heap_graft_shares.
+
+(** * inputs added to the judges in the later rounds *)
+(** chained groups (a group anchored on a tip that an earlier group of the same call added):
+    [anchor_pairs idx groups] lists, in the order of the insertions, every added tip with the
+    member of its group that the index held when the group was processed.  Exactly these tips
+    are added, and each is at distance zero from that member. *)
+Theorem C15_insert_chained_added :
+  forall t t' idx groups,
+    wf t = true -> (forall x, In x (leaves t) -> In x idx) -> ~ In ""%string idx ->
+    Forall (fun g => ~ In ""%string g) groups ->
+    insert_identical t idx groups = Ok t' ->
+    NoDup (map snd (anchor_pairs idx groups)) /\
+    Permutation (leaves t') (map snd (anchor_pairs idx groups) ++ leaves t).
+Proof. exact insert_identical_added. Qed.
+Print Assumptions C15_insert_chained_added.
+
+Theorem C15_insert_chained_zero_distance :
+  forall t t' idx groups,
+    wf t = true -> (forall x, In x (leaves t) -> In x idx) -> ~ In ""%string idx ->
+    Forall (fun g => ~ In ""%string g) groups ->
+    insert_identical t idx groups = Ok t' ->
+    forall w, (forall e, qeqb (elen e) 0%Q = true -> (w e == 0)%Q) -> NoDup (leaves t) ->
+    forall o n d, In (o, n) (anchor_pairs idx groups) -> In (o, n, d) (pairdists w t') -> (d == 0)%Q.
+Proof. exact insert_identical_zero_chained. Qed.
+Print Assumptions C15_insert_chained_zero_distance.
+
+Example C15_example_chained_groups :
+  anchor_pairs ["a"; "b"; "c"; "d"]%string [["x"; "b"]; ["y"; "x"]; ["d"; "z"]]%string
+  = [("b", "x"); ("x", "y"); ("d", "z")]%string /\
+  exists t', insert_identical ins_tree ["a"; "b"; "c"; "d"]%string [["x"; "b"]; ["y"; "x"]; ["d"; "z"]]%string = Ok t' /\
+             leaves t' = ["a"; "x"; "b"; "y"; "c"; "d"; "z"]%string.
+Proof. exact ins_example. Qed.
+Print Assumptions C15_example_chained_groups.
+
+(** GraftTreeOnTip asks nothing of the names of the grafted tree: it is accepted as soon as the
+    index holds the name and a tip of that name exists below the root; in particular a graft
+    that re-uses the name of the replaced tip is accepted *)
+Theorem C15_graft_accepts :
+  forall t idx tip g,
+    idx <> [] -> In tip idx -> (is_tip t && String.eqb (uname t) tip) = false ->
+    has_tip_child tip t = true ->
+    exists t', graft t idx tip g = Ok t'.
+Proof. exact graft_accepts. Qed.
+Print Assumptions C15_graft_accepts.
+
+Example C15_example_graft_reuses_name :
+  exists t', graft (UNode "" [] [Some (mkE 1 nilv nilv [], UNode "l1" [] [None]);
+                                 Some (mkE 2 nilv nilv [], UNode "x" [] [None]);
+                                 Some (mkE 3 nilv nilv [], UNode "y" [] [None])])
+                   ["l1"; "x"; "y"]%string "l1"
+                   (UNode "" [] [Some (mkE 1 nilv nilv [], UNode "l1" [] [None]);
+                                 Some (mkE 1 nilv nilv [], UNode "z" [] [None])]) = Ok t' /\
+             leaves t' = ["l1"; "z"; "x"; "y"]%string.
+Proof. exact graft_reuse_example. Qed.
+Print Assumptions C15_example_graft_reuses_name.
